@@ -40,8 +40,14 @@ static char* ref_strstr(const char* h, const char* n) {
 #include "options.c"
 
 /* message functions (same TU as the option code): cut with --replace-calls; output formatting is decided by h_vsnprintf */
-static int n_warn;
-void stub_message(const char* fmt, ...) { n_warn++; }
+static int n_warn, msg_depth;
+void stub_message(const char* fmt, ...) {
+  /* contract of the real message functions: they consult the verbose / show_errors options before printing */
+  n_warn++; msg_depth++;
+  CHECK(msg_depth <= 3, "C20: option initialisation does not recurse through its own warning message (would overflow the stack)");
+  if (msg_depth <= 3) { (void)mi_option_get(mi_option_verbose); (void)mi_option_get(mi_option_show_errors); }
+  msg_depth--;
+}
 /* ---- environment ---- */
 #ifndef ENVLEN
 #define ENVLEN 6
